@@ -110,6 +110,31 @@ fn gen_body(rng: &mut Rng, next_id: &mut u64, depth: u32) -> Vec<Cmd> {
     body
 }
 
+/// a long burst of deferrals under one guard (incr_advance calls try_advance on every COUNTS_BETWEEN_ADVANCE-th
+/// deferral, inside the critical section), while other threads run rounds and hold guards
+pub fn gen_burst_program(rng: &mut Rng) -> (usize, usize, Vec<Vec<Cmd>>) {
+    let cap = 3 + rng.below(3) as usize;
+    let g0 = rng.below(6) as usize;
+    let mut next_id = 1u64;
+    let k = 64 + rng.below(80) as usize;
+    let mut t0 = vec![Cmd::Pin];
+    for _ in 0..k {
+        t0.push(Cmd::Defer(next_id, vec![]));
+        next_id += 1;
+    }
+    t0.push(Cmd::Unpin);
+    let mut progs = vec![t0];
+    let nt = 1 + rng.below(2) as usize;
+    for _ in 0..nt {
+        let mut p = vec![];
+        for _ in 0..(2 + rng.below(4)) {
+            p.extend([Cmd::Pin, Cmd::Flush, Cmd::Unpin]);
+        }
+        progs.push(p);
+    }
+    (cap, g0, progs)
+}
+
 pub fn gen_program(rng: &mut Rng, thorough: bool) -> (usize, usize, Vec<Vec<Cmd>>) {
     // cap 1 makes Local::unpin loop forever (every pop retires a queue node, which fills and seals a
     // bag, which is popped three epochs later, ...): not reachable with the production MAX_OBJECTS
